@@ -55,7 +55,28 @@ func VerifDma() {
 		s.m.Write(0xff46, page2)
 		vAssert("restart-blocked@0", s.m.Read(a) == 0xff)
 	}
+	wrAt := vCfg("wr") // a CPU write to one source byte after that many cycles of the (last) transfer; 0 = none
+	sidx := vU8("sidx")
+	nv := vU8("nv")
+	if wrAt > 0 {
+		vAssume(sidx < 0xa0)
+	}
 	for k := 1; k <= 162; k++ {
+		if wrAt > 0 && k == wrAt+1 {
+			// the engine fetches byte b in its (b+2)-th cycle: a byte already fetched keeps the value it had then
+			pg := page
+			if restartAt >= 0 {
+				pg = page2
+			}
+			src := uint16(pg) << 8
+			if pg >= 0xe0 {
+				src -= 0x2000
+			}
+			s.m.Write(src+uint16(sidx), nv)
+			if int(sidx)+2 > wrAt {
+				want[sidx] = nv
+			}
+		}
 		s.m.EndMachineCycle()
 		n++
 		if k < 162 {
